@@ -121,6 +121,8 @@ type dict interface {
 	GoSpec(kt string, table string, entries []string) string
 	GoDecPut(kt string, table string, entries []string) string
 	GoReencode(table string) string
+	New(nk int, rest []string) string
+	GoOob(kt string, entries []string) string
 }
 
 type runner[K keyC, V any] struct {
@@ -369,6 +371,14 @@ func init() {
 		"go.hm.real":      func(a []string) string { return dictOf(a).GoSpec(a[0], a[2], a[3:]) },
 		"go.hm.decput":    func(a []string) string { return dictOf(a).GoDecPut(a[0], a[2], a[3:]) },
 		"go.hm.reencode":  func(a []string) string { return dictOf(a).GoReencode(a[2]) },
+		"go.hm.oob":       func(a []string) string { return dictOf(a).GoOob(a[0], a[2:]) },
+		"hm.new": func(a []string) string {
+			nk, err := strconv.Atoi(a[2])
+			if err != nil {
+				panic("bad nk")
+			}
+			return dictOf(a).New(nk, a[3:])
+		},
 	})})
 }
 
@@ -761,6 +771,134 @@ func (r runner[K, V]) GoSpec(kt string, table string, entries []string) string {
 		return "FAIL unmarshal " + err.Error()
 	}
 	if f := r.checkDict(kt, d, entries, "spec"); f != "" {
+		return f
+	}
+	return "ok"
+}
+
+// New: NewHashmapE(keys, values) with slices of any two lengths; Marshal and Items() each under their own recover.
+func (r runner[K, V]) New(nk int, rest []string) string {
+	var keys []K
+	var vals []V
+	for _, k := range rest[:nk] {
+		keys = append(keys, r.kc.parse(k))
+	}
+	for _, v := range rest[nk:] {
+		vals = append(vals, r.vc.parse(v))
+	}
+	guard := func(f func() string) (out string) {
+		defer func() {
+			if recover() != nil {
+				out = "panic"
+			}
+		}()
+		return f()
+	}
+	m := guard(func() string {
+		c, err := r.marshal(tlb.NewHashmapE(keys, vals))
+		if err != nil {
+			return "err"
+		}
+		return "ok " + canonTable(c)
+	})
+	it := guard(func() string {
+		d := tlb.NewHashmapE(keys, vals)
+		items := d.Items()
+		out := "ok " + strconv.Itoa(len(items))
+		for _, x := range items {
+			out += " " + r.kc.show(x.Key) + "=" + r.vc.show(x.Value)
+		}
+		return out
+	})
+	return "ok M=" + strings.ReplaceAll(m, " ", ":") + " I=" + strings.ReplaceAll(it, " ", ":")
+}
+
+// goKeyBits: what Marshal writes for a typed integer key, possibly outside its declared width (independent of tongo):
+// UintN keeps the low N bits; IntN (N >= 2) the sign and the low N-1 bits; Int1 accepts only 0 and -1 ("" = error).
+func goKeyBits(kt, s string) string {
+	n := ktWidth(kt)
+	v, ok := new(big.Int).SetString(s, 10)
+	if !ok {
+		panic("bad key " + s)
+	}
+	low := func(x *big.Int, w int) string {
+		m := new(big.Int).Mod(x, new(big.Int).Lsh(big.NewInt(1), uint(w)))
+		b := m.Text(2)
+		if w == 0 {
+			return ""
+		}
+		return strings.Repeat("0", w-len(b)) + b
+	}
+	if kt[0] == 'u' {
+		return low(v, n)
+	}
+	if n == 1 {
+		switch s {
+		case "0":
+			return "0"
+		case "-1":
+			return "1"
+		}
+		return ""
+	}
+	if v.Sign() < 0 {
+		return "1" + low(v, n-1)
+	}
+	return "0" + low(v, n-1)
+}
+
+// GoOob: typed integer keys, some outside the declared width. Marshal must either fail — required when a key cannot
+// be written (Int1) or two keys truncate to the same bits — or produce a dictionary that decodes to exactly the
+// truncated keys with their values: entries with keys inside the domain are never lost or altered.
+func (r runner[K, V]) GoOob(kt string, entries []string) string {
+	var d tlb.HashmapE[K, V]
+	r.putAll(&d, entries)
+	typed := map[string]string{} // typed key text -> value (later Put of the same typed key wins)
+	var order []string
+	for _, e := range entries {
+		k, v := splitEntry(e)
+		if _, seen := typed[k]; !seen {
+			order = append(order, k)
+		}
+		typed[k] = v
+	}
+	byBits := map[string]string{}
+	mustFail := false
+	for _, k := range order {
+		b := goKeyBits(kt, k)
+		if b == "" {
+			mustFail = true
+			continue
+		}
+		if _, dup := byBits[b]; dup {
+			mustFail = true
+		}
+		byBits[b] = keyText(kt, b) + "=" + typed[k]
+	}
+	c, err := r.marshal(d)
+	if mustFail {
+		if err == nil {
+			return "FAIL marshal-accepts-colliding-keys " + clip(canonTable(c))
+		}
+		return "ok"
+	}
+	if err != nil {
+		return "FAIL marshal " + err.Error()
+	}
+	bits := make([]string, 0, len(byBits))
+	for b := range byBits {
+		bits = append(bits, b)
+	}
+	sort.Strings(bits)
+	want := make([]string, len(bits))
+	for i, b := range bits {
+		want[i] = byBits[b]
+	}
+	var d2 tlb.HashmapE[K, V]
+	if err := tlb.Unmarshal(c, &d2); err != nil {
+		return "FAIL unmarshal " + err.Error()
+	}
+	if f := r.checkDict(kt, &d2, want, "oob"); f != "" {
 		return f
 	}
 	return "ok"
@@ -1462,6 +1600,7 @@ func genC05(g *h.G) {
 		genOneMap(g)
 	}
 	genBoundary(g)
+	genTypedLayer(g, g.Scale(200, 4000))
 	genAug(g, g.Scale(300, 4000))
 	genMalformed(g, g.Scale(800, 12000))
 	genReal(g)
@@ -1610,6 +1749,102 @@ func genOneMap(g *h.G) {
 	puts = shuffled(g, puts)
 	g.Emit("hm.decput", append([]string{kt, vt, table}, puts...)...)
 	g.Emit("go.hm.decput", append([]string{kt, vt, table}, puts...)...)
+}
+
+// genTypedLayer: integer keys outside their declared width (within the Go kind: Uint7 is a uint8), and NewHashmapE with
+// key / value slices of different lengths.
+func genTypedLayer(g *h.G, count int) {
+	under := func(n int) int {
+		switch {
+		case n <= 8:
+			return 8
+		case n <= 16:
+			return 16
+		case n <= 32:
+			return 32
+		}
+		return 64
+	}
+	var narrow []string
+	for _, kt := range append(append([]string{}, keyTypes...), u32OnlyKeyTypes...) {
+		if (kt[0] == 'u' || kt[0] == 'i') && ktWidth(kt) < under(ktWidth(kt)) {
+			narrow = append(narrow, kt)
+		}
+	}
+	sort.Strings(narrow)
+	for i := 0; i < count; i++ {
+		kt := narrow[g.Rng.Intn(len(narrow))]
+		n, ub := ktWidth(kt), under(ktWidth(kt))
+		vt := "U32"
+		if _, full := dicts[kt+"/P"]; full && g.Rng.Intn(3) == 0 {
+			vt = "P"
+		}
+		seen := map[string]bool{}
+		var entries []string
+		oob := 0
+		for j := 2 + g.Rng.Intn(5); j > 0; j-- {
+			w := n
+			if g.Rng.Intn(2) == 0 {
+				w = ub
+			}
+			bits := randBits(g, w)
+			if g.Rng.Intn(4) == 0 && len(entries) > 0 { // an out-of-range twin of an earlier key: same low bits
+				k0, _ := splitEntry(entries[g.Rng.Intn(len(entries))])
+				tb := goKeyBits(kt, k0)
+				if len(tb) == n && ub > n {
+					bits = randBits(g, ub-n) + tb
+					if kt[0] == 'i' && n >= 2 {
+						bits = tb[:1] + randBits(g, ub-n) + tb[1:]
+					}
+				}
+			}
+			fam := kt[:1] + strconv.Itoa(len(bits))
+			k := keyText(fam, bits)
+			if seen[k] {
+				continue
+			}
+			seen[k] = true
+			if goKeyBits(kt, k) == "" || keyText(kt, goKeyBits(kt, k)) != k {
+				oob++
+			}
+			vtext, _ := randValue(g, vt, 100)
+			entries = append(entries, k+"="+vtext)
+		}
+		if oob > 0 {
+			g.Count("typed_out_of_range_sets")
+		} else {
+			g.Count("typed_in_range_sets")
+		}
+		g.Emit("hm.putkeys", append([]string{kt, vt}, entries...)...)
+		g.Emit("hm.build", append([]string{kt, vt}, entries...)...)
+		g.Emit("go.hm.oob", append([]string{kt, vt}, entries...)...)
+	}
+	for i := 0; i < count/2; i++ {
+		kt := c05KeyWeights[g.Rng.Intn(len(c05KeyWeights))]
+		vt := []string{"U32", "B256", "P"}[g.Rng.Intn(3)]
+		keys, _ := keySet(g, kt, g.Rng.Intn(5))
+		args := []string{kt, vt, strconv.Itoa(len(keys))}
+		for _, k := range keys {
+			args = append(args, keyText(kt, k))
+		}
+		nv := g.Rng.Intn(6)
+		if g.Rng.Intn(3) == 0 {
+			nv = len(keys)
+		}
+		for j := 0; j < nv; j++ {
+			vtext, _ := randValue(g, vt, 100)
+			args = append(args, vtext)
+		}
+		switch {
+		case nv < len(keys):
+			g.Count("slices_fewer_values")
+		case nv > len(keys):
+			g.Count("slices_more_values")
+		default:
+			g.Count("slices_equal")
+		}
+		g.Emit("hm.new", args...)
+	}
 }
 
 // genBoundary: leaf cells at the 1023-bit capacity, labels of exactly 7/8/9 bits, workchains outside int8.
